@@ -101,6 +101,8 @@ ALPHA = {
     "obj": {"quick": [None, 1, "x", {"k": 1}], "thorough": [None, 1, "x", {"k": 1}]},
     # durations in days (timedelta64[D]); Parquet has no day-resolution duration, see the dtype clause
     "td": {"quick": [None, "3", "-2"], "thorough": [None, "3", "-2", "0"]},
+    # datetimes in hours (datetime64[h]): a unit Arrow / Parquet do not have
+    "h": {"quick": [None, "2020-02-29T23"], "thorough": [None, "2020-02-29T23", "1969-12-31T23"]},
 }
 US_BINARY_EXTRA = ["0001-01-01T00:00:00"]   # outside the ns range: binary formats only
 
@@ -113,15 +115,15 @@ SPECIALS = {
 }
 
 KINDS = {
-    "pickle": ["f8", "i8", "u1", "b1", "bo", "str", "U", "D", "s", "ms", "us", "obj", "td"],
-    "npz": ["f8", "i8", "u1", "b1", "bo", "str", "U", "D", "s", "ms", "us", "obj", "td"],
-    "parquet": ["f8", "i8", "u1", "b1", "bo", "str", "D", "ms", "us", "td"],
+    "pickle": ["f8", "i8", "u1", "b1", "bo", "str", "U", "D", "s", "ms", "us", "obj", "td", "h"],
+    "npz": ["f8", "i8", "u1", "b1", "bo", "str", "U", "D", "s", "ms", "us", "obj", "td", "h"],
+    "parquet": ["f8", "i8", "u1", "b1", "bo", "str", "D", "ms", "us", "td", "h"],
     "csv": ["f8", "i8", "b1", "bo", "str", "D", "us"],
     "json": ["f8", "i8", "b1", "bo", "str"],
 }
 
 # names by column position; "items" is a dict/DataFrame method name, "a b" is not an identifier
-POS_NAMES = ["k", "a b", "é", "items", "c5", "c6", "c7", "c8", "c9", "c10", "c11", "c12", "c13", "c14"]
+POS_NAMES = ["k", "a b", "é", "items", "c5", "c6", "c7", "c8", "c9", "c10", "c11", "c12", "c13", "c14", "c15", "c16"]
 # names tried one by one on a two-column frame ("file" is the first parameter of numpy.savez)
 NAME_ALPHABET = ["k", "a b", "é", "items", "count", "_x", "file", "n,m", 'q"n', "日本", "1", "true"]
 
@@ -603,6 +605,8 @@ def _execute(case):
             if not same:
                 viol.append(("values", f"column {name!r}: got {gc!r} expected {wc!r}"))
                 break
+            if fmt == "parquet" and wd.kind == "M" and gd.kind == "M" and np.datetime_data(wd)[0] in ("h", "m", "W", "M", "Y"):
+                continue  # likewise for datetime units that Arrow does not have: the unit may become finer, the instants may not change
             if fmt == "parquet" and wd.kind == "m" and gd.kind == "m":
                 continue  # Arrow / Parquet have no day-resolution duration type: the unit may widen, the durations (compared above) may not change
             if fmt in BINARY and gd != wd:
